@@ -371,6 +371,9 @@ private:
   const assumption_map_t *m_assumptions;
   // Used to skip the analysis until m_entry is found
   bool m_skip;
+  // Initial value of the analysis: it flows into m_entry in addition
+  // to the post-states of the predecessors of m_entry.
+  AbstractValue m_entry_init;
 
   inline AbstractValue make_top() const { return m_absval_fac.make_top(); }
 
@@ -446,12 +449,14 @@ private:
 public:
   wto_iterator(interleaved_iterator_t *iterator, const AbstractValue &absval_fac)
       : m_iterator(iterator), m_entry(m_iterator->get_cfg().entry()),
-        m_absval_fac(absval_fac), m_assumptions(nullptr), m_skip(true) {}
+        m_absval_fac(absval_fac), m_assumptions(nullptr), m_skip(true),
+        m_entry_init(m_iterator->get_pre(m_entry)) {}
 
   wto_iterator(interleaved_iterator_t *iterator, basic_block_label_t entry,
                const AbstractValue &absval_fac, const assumption_map_t *assumptions)
       : m_iterator(iterator), m_entry(entry), m_absval_fac(absval_fac),
-        m_assumptions(assumptions), m_skip(true) {}
+        m_assumptions(assumptions), m_skip(true),
+        m_entry_init(m_iterator->get_pre(m_entry)) {}
 
   virtual void visit(wto_vertex_t &vertex) override {
     basic_block_label_t node = vertex.node();
@@ -470,28 +475,21 @@ public:
       return;
     }
 
-    AbstractValue pre = std::move(make_top());
-    if (node == m_entry) {
-      pre = m_iterator->get_pre(node);
-      if (m_assumptions && !m_assumptions->empty()) {
-        // no necessary but it might avoid copies
-        pre = strengthen(node, pre);
-        m_iterator->set_pre(node, pre);
-      }
-    } else {
-      auto prev_nodes = m_iterator->m_cfg.prev_nodes(node);
-      crab::CrabStats::resume("Fixpo.join_predecessors");
-      pre = std::move(make_bottom());
-      for (basic_block_label_t prev : prev_nodes) {
-        pre |= m_iterator->get_post(prev);
-      }
-      crab::CrabStats::stop("Fixpo.join_predecessors");
-      if (m_assumptions && !m_assumptions->empty()) {
-        // no necessary but it might avoid copies
-        pre = strengthen(node, pre);
-      }
-      m_iterator->set_pre(node, pre);
+    // If the analysis starts at this node then the initial value flows
+    // into it together with the post-states of its predecessors (they
+    // are not bottom if the node is inside a loop).
+    AbstractValue pre = (node == m_entry ? m_entry_init : make_bottom());
+    auto prev_nodes = m_iterator->m_cfg.prev_nodes(node);
+    crab::CrabStats::resume("Fixpo.join_predecessors");
+    for (basic_block_label_t prev : prev_nodes) {
+      pre |= m_iterator->get_post(prev);
     }
+    crab::CrabStats::stop("Fixpo.join_predecessors");
+    if (m_assumptions && !m_assumptions->empty()) {
+      // no necessary but it might avoid copies
+      pre = strengthen(node, pre);
+    }
+    m_iterator->set_pre(node, pre);
 
     compute_post(node, pre);
   }
@@ -537,18 +535,21 @@ public:
 
     auto prev_nodes = m_iterator->m_cfg.prev_nodes(head);
     AbstractValue pre = std::move(make_bottom());
-    // The initial value if the analysis starts in this cycle: it flows
-    // into the head in addition to the predecessors.
+    // The initial value if the analysis starts at the head of this
+    // cycle: it flows into the head in addition to the predecessors.
+    // (If the analysis starts at another node of the cycle then the
+    // initial value flows into that node, see visit(wto_vertex_t&).)
     AbstractValue entry_pre = std::move(make_bottom());
     wto_nesting_t cycle_nesting = get_nesting(head);
+    const bool entry_is_head = (head == m_entry);
 
-    if (entry_in_this_cycle) {
+    if (entry_is_head) {
       CRAB_VERBOSE_IF(
           2, crab::outs() << "Skipped predecessors of "
                           << crab::basic_block_traits<basic_block_t>::to_string(
                                  head)
                           << "\n");
-      pre = m_iterator->get_pre(m_entry);
+      pre = m_entry_init;
       entry_pre = pre;
     } else {
       crab::CrabStats::count("Fixpo.join_predecessors");
@@ -587,7 +588,7 @@ public:
       for (basic_block_label_t prev : prev_nodes) {
         new_pre |= m_iterator->get_post(prev);
       }
-      if (entry_in_this_cycle) {
+      if (entry_is_head) {
         new_pre |= entry_pre;
       }
       if (m_assumptions && !m_assumptions->empty()) {
@@ -627,7 +628,7 @@ public:
       for (basic_block_label_t prev : prev_nodes) {
         new_pre |= m_iterator->get_post(prev);
       }
-      if (entry_in_this_cycle) {
+      if (entry_is_head) {
         new_pre |= entry_pre;
       }
       if (m_assumptions && !m_assumptions->empty()) {
